@@ -6,7 +6,7 @@ from props.polycases import P, W, coef, poly, grp, sc, zeros
 
 ID = "C07"
 GEN_TAGS = ["PolyGen"]
-PROOF_TARGETS = ["proofs/PolyCoreProofs.vo", "proofs/PolyC07Wrap.vo", "proofs/PolyValueSem.vo"]
+PROOF_TARGETS = ["proofs/PolyCoreProofs.vo", "proofs/PolyC07Wrap.vo", "proofs/PolyValueSem.vo", "proofs/XFieldPoly.vo"]
 PROPS_FILE = "props/C07.v"
 EXTRACT = "extract/ExtractC07.vo"
 ORACLE = ("gen_c07", "c07.ml")
